@@ -73,6 +73,10 @@ class _Boolean(_PrimitiveType, metaclass=MetaBoolean):
             assert value in ("0", "1")
             self._value = value == "1"
         else:
+            if isinstance(value, int):
+                # same check as in _assign, other integers are no boolean values
+                assert value in (0, 1)
+
             self._value = bool(value)
 
     @property
